@@ -151,10 +151,15 @@ func init() {
 		self := c07Peer(a[1])
 		t, _ := strconv.Atoi(a[2])
 		sid := c07Sid(a[3])
-		holders, excluded, arrivals := c07PeerList(a[4]), c07PeerList(a[5]), c07PeerList(a[6])
+		holders, excluded := c07PeerList(a[4]), c07PeerList(a[5])
+		arrivals := items(a[6], ",") // peer tokens, or T = one more tick of the InitiatePeriod ticker has been observed
+		ticks := strings.Contains(a[6], "T")
 		cm := c07NewComm()
 		h := c07NewHost(self, c07Peers)
 		co := c07Coordinator(h, cm)
+		if ticks {
+			co.InitiatePeriod = time.Millisecond
+		}
 		proc := &c07Proc{real: c07Signing(a[0], sid, h, cm, holders, t), retryable: true,
 			outcomes: []func(context.Context) error{func(context.Context) error { return nil }}}
 		ctx, cancel := context.WithCancel(context.Background())
@@ -166,8 +171,26 @@ func init() {
 			rerr = co.VerifC07Initiate(ctx, []tss.TssProcess{proc}, make(chan interface{}, 4), excluded)
 		}()
 		n := 0
-		for _, from := range arrivals {
-			r := cm.deliver(sid, comm.TssReadyMsg, from, []byte{}, done)
+		for _, tok := range arrivals {
+			var r string
+			if tok == "T" {
+				base := len(cm.castsOf(comm.TssInitiateMsg))
+				r = cm.waitUntil(c07Patience(), done, func() bool {
+					k := 0
+					for _, b := range cm.casts {
+						if b.typ == comm.TssInitiateMsg {
+							k++
+						}
+					}
+					return k > base
+				})
+				if r == "timeout" {
+					c07Anomaly()
+					r = "notick"
+				}
+			} else {
+				r = cm.deliver(sid, comm.TssReadyMsg, c07Peer(tok), []byte{}, done)
+			}
 			if r == "done" {
 				break
 			}
@@ -212,7 +235,211 @@ func init() {
 				run += c07ParamPeers(r.params)
 			}
 		}
-		return "n=" + itoa(n) + ";start=" + start + ";run=" + run + ";init=" + itoa(len(cm.castsOf(comm.TssInitiateMsg)))
+		inits := itoa(len(cm.castsOf(comm.TssInitiateMsg)))
+		if ticks { // the ticker keeps running while ready messages are handed over: only "re-broadcast happened" is stable
+			inits = "re"
+		}
+		return "n=" + itoa(n) + ";start=" + start + ";run=" + run + ";init=" + inits
+	}
+	// retry2 <self> <t> <sid> <peers> <claimant|-> <events> — real Execute, SECOND attempt: the static coordinator stays
+	//   silent (CoordinatorTimeout passes), the relayer re-elects without it; with a claimant (a listed peer ranked above
+	//   this relayer) it follows the claimant, otherwise it coordinates itself. Then the events are delivered:
+	//   i/s/x/f as for `wait` (read while following), r<from> ready (read while coordinating), f<from> fail in both.
+	//   => mode=<w|c>;sel=<candidates>;r=<ready targets>;start=<subset|none>;run=<c:subset|w:params>;res=<…>
+	ops["C07.retry2"] = func(a []string) string {
+		self := c07Peer(a[0])
+		t := int(u64(a[1]))
+		sid := c07Sid(a[2])
+		peers := c07PeerList(a[3])
+		ord := c07Order(peers, sid)
+		if len(ord) == 0 || ord[0] == self {
+			return "selfcoord"
+		}
+		c := ord[0]
+		elected := self
+		if a[4] != "-" {
+			is, ic := -1, -1
+			k := 0
+			for _, p := range ord {
+				if p == c {
+					continue
+				}
+				if p == self {
+					is = k
+				}
+				if p == c07Peer(a[4]) {
+					ic = k
+				}
+				k++
+			}
+			if ic >= 0 && is >= 0 && ic < is {
+				elected = c07Peer(a[4])
+			}
+		}
+		e := c11NewEnv(self, t, sid, peers, true, a[4] != "-")
+		e.co.CoordinatorTimeout = 30 * time.Millisecond
+		cm := e.cm
+		ctx, cancel := context.WithCancel(context.Background())
+		defer cancel()
+		done := make(chan struct{})
+		var rerr error
+		go func() {
+			defer close(done)
+			rerr = e.co.Execute(ctx, []tss.TssProcess{e.proc}, make(chan interface{}, 4))
+		}()
+		note := ""
+		// the first attempt's subscriptions exist; from here on only newer ones are delivered to
+		if r := cm.waitUntil(c07Patience(), done, func() bool { return cm.subscriber(sid, comm.TssStartMsg) != nil }); r == "ok" {
+			cm.mu.Lock()
+			cm.mark = cm.next
+			cm.mu.Unlock()
+		} else {
+			note += ";first-" + r
+		}
+		nInit := func() int {
+			k := 0
+			for _, b := range cm.casts {
+				if b.typ == comm.TssInitiateMsg {
+					k++
+				}
+			}
+			return k
+		}
+		conds := map[string]func() bool{
+			"bully": func() bool { return cm.subscriber(sid, comm.CoordinatorSelectMsg) != nil },
+			"wait":  func() bool { return cm.subscriber(sid, comm.TssStartMsg) != nil },
+			"coord": func() bool { return nInit() > 0 },
+		}
+		if st := e.firstOf(done, conds, []string{"bully"}); st != "bully" {
+			note += ";noelection-" + st
+		} else {
+			e.co.CoordinatorTimeout = time.Hour
+			if a[4] != "-" {
+				if r := cm.deliver(sid, comm.CoordinatorSelectMsg, c07Peer(a[4]), []byte{}, done); r != "ok" {
+					note += ";select-" + r
+				}
+			}
+		}
+		mode := e.firstOf(done, conds, []string{"coord", "wait"})
+		aborted, running := false, false
+		stop := e.stopOn(done)
+	loop:
+		for _, ev := range items(a[5], ";") {
+			kind := ev[0]
+			rest, tag := ev[1:], ""
+			if i := strings.Index(rest, ":"); i >= 0 {
+				rest, tag = rest[:i], rest[i+1:]
+			}
+			from := c07Peer(rest)
+			var typ comm.MessageType
+			payload := []byte{}
+			switch kind {
+			case 'i':
+				typ = comm.TssInitiateMsg
+			case 's':
+				typ = comm.TssStartMsg
+				payload, _ = message.MarshalStartMessage([]byte("p" + tag))
+			case 'x':
+				typ = comm.TssStartMsg
+				payload = []byte("{")
+			case 'f':
+				typ = comm.TssFailMsg
+			case 'r':
+				typ = comm.TssReadyMsg
+			default:
+				panic("bad event " + ev)
+			}
+			if kind != 'f' {
+				if (mode == "wait") == (kind == 'r') || (mode != "wait" && mode != "coord") {
+					continue // nobody reads this type in this role
+				}
+				if running {
+					continue // the process of the second attempt runs: the collecting / waiting loop is over
+				}
+			}
+			ch := (<-chan struct{})(done)
+			if kind == 'r' {
+				ch = stop
+			}
+			switch r := cm.deliver(sid, typ, from, payload, ch); r {
+			case "ok":
+			case "done":
+				if kind == 'r' {
+					running = true
+					continue
+				}
+				break loop
+			default:
+				note += ";" + r
+				break loop
+			}
+			if mode == "wait" && from == elected && kind == 's' {
+				running = true
+			}
+			if mode == "wait" && from == elected && kind == 'x' {
+				aborted = true
+				break loop
+			}
+		}
+		if cm.waitUntil(c07Patience(), nil, func() bool {
+			for _, b := range cm.casts {
+				if b.typ == comm.CoordinatorSelectMsg {
+					return true
+				}
+			}
+			return false
+		}) != "ok" {
+			c07Anomaly()
+			note += ";noselect"
+		}
+		if aborted && !c07WaitDone(done) {
+			note += ";noabort"
+			aborted = false
+		}
+		if !aborted {
+			cancel()
+			if !c07WaitDone(done) {
+				return "hang"
+			}
+		}
+		sel, start := "none", "none"
+		rs := []string{}
+		cm.mu.Lock()
+		for _, b := range cm.casts {
+			switch b.typ {
+			case comm.CoordinatorSelectMsg:
+				if sel == "none" {
+					sel = c07Toks(b.peers)
+				}
+			case comm.TssReadyMsg:
+				rs = append(rs, c07Toks(b.peers))
+			case comm.TssStartMsg:
+				m, err := message.UnmarshalStartMessage(b.payload)
+				x := "badstart"
+				if err == nil {
+					x = c07ParamPeers(m.Params)
+				}
+				if start == "none" {
+					start = x
+				} else {
+					start += "+" + x
+				}
+			}
+		}
+		cm.mu.Unlock()
+		runs := []string{}
+		for _, r := range e.proc.runList() {
+			if r.coordinator {
+				runs = append(runs, "c:"+c07ParamPeers(r.params))
+			} else {
+				runs = append(runs, "w:"+string(r.params))
+			}
+		}
+		m := map[string]string{"wait": "w", "coord": "c"}[mode]
+		if m == "" {
+			m = mode
+		}
+		return "mode=" + m + ";sel=" + sel + ";r=" + joinOr(rs, ",") + ";start=" + start + ";run=" + joinOr(runs, "/") + ";res=" + c11ErrClass(rerr) + note
 	}
 	// wait <self> <sid> <peers> <events>  — real Execute on a relayer that is NOT the coordinator.
 	//   events `;`-separated: i<from> initiate, s<from>:<tag> start carrying params tag, x<from> start with a malformed
@@ -452,6 +679,20 @@ func genC07(g *G) {
 			g.Emit("initiate", []string{"ecdsa", "frost"}[k%2], "0", itoa(t), hx([]byte(c07Sids[k%3])), "0,1,2,3,4", "4", joinOr(seq, ","))
 		})
 	}
+	// … and with ticks of the InitiatePeriod ticker (T) anywhere between the ready messages: the quorum is reached only
+	// after the initiate message was re-broadcast once or several times
+	for _, tc := range []struct {
+		t     int
+		alpha []string
+	}{{1, []string{"1", "2", "7", "4", "T"}}, {2, []string{"1", "2", "3", "T"}}} {
+		c07Seqs(tc.alpha, g.Count(4, 5), func(seq []string) {
+			if !c07Contains(seq, "T") {
+				return
+			}
+			k++
+			g.Emit("initiate", []string{"ecdsa", "frost"}[k%2], "0", itoa(tc.t), hx([]byte(c07Sids[k%3])), "0,1,2,3,4", "4", joinOr(seq, ","))
+		})
+	}
 	for i := 0; i < g.Count(600, 30000); i++ {
 		n := 2 + g.Intn(6)
 		holders := c07RandPeers(g, n)
@@ -475,8 +716,11 @@ func genC07(g *G) {
 			t = 0
 		}
 		arr := []string{}
+		tickP := []int{0, 0, 4}[g.Intn(3)]
 		for j, m := 0, g.Intn(8); j < m; j++ {
-			if g.Intn(6) == 0 {
+			if tickP > 0 && g.Intn(tickP) == 0 {
+				arr = append(arr, "T")
+			} else if g.Intn(6) == 0 {
 				arr = append(arr, itoa(g.Intn(10)))
 			} else {
 				arr = append(arr, holders[g.Intn(n)])
@@ -530,6 +774,63 @@ func genC07(g *G) {
 			}
 		}
 		g.Emit("wait", self, sid, joinOr(ps, ","), joinOr(evs, ";"))
+	}
+	genC07Retry(g)
+}
+
+// genC07Retry: the SECOND attempt through the real Execute (static coordinator silent, re-election): forged and genuine
+// initiate / start / fail / ready messages while this relayer follows the newly elected coordinator or coordinates itself.
+func genC07Retry(g *G) {
+	sid := "m1"
+	ord := c07Order(c07PeerList("0,1,2,3"), sid) // ord[0] is the silent static coordinator
+	c, hi, mid, lo := c07Tok(ord[0]), c07Tok(ord[1]), c07Tok(ord[2]), c07Tok(ord[3])
+	// follower (self = lowest, claimant = highest remaining): every single message, pairs on the thorough tier
+	alphaW := []string{"i" + hi, "i" + mid, "s" + hi + ":1", "s" + mid + ":2", "x" + mid, "f" + hi, "f" + mid, "f" + c, "x" + hi}
+	c07Seqs(alphaW, g.Count(1, 2), func(seq []string) {
+		g.Emit("retry2", lo, "1", hx([]byte(sid)), "0,1,2,3", hi, joinOr(seq, ";"))
+	})
+	for _, seq := range []string{
+		"i" + hi + ";f" + mid + ";s" + hi + ":4;f" + mid + ";f" + hi + ";f" + c,
+		"f" + hi + ";i" + hi + ";s" + mid + ":9;f" + lo + ";s" + hi + ":3",
+		"f" + mid + ";f" + mid + ";x" + mid + ";i" + mid + ";x" + hi,
+	} {
+		g.Emit("retry2", lo, "1", hx([]byte(sid)), "0,1,2,3", hi, seq)
+	}
+	// coordinator of the second attempt (self = highest remaining, nobody claims): ready and fail messages interleaved
+	alphaC := []string{"r" + mid, "r" + lo, "f" + mid, "f" + lo, "f" + c, "r" + c}
+	c07Seqs(alphaC, g.Count(2, 3), func(seq []string) {
+		g.Emit("retry2", hi, []string{"1", "2"}[len(seq)%2], hx([]byte(sid)), "0,1,2,3", "-", joinOr(seq, ";"))
+	})
+	for i := 0; i < g.Count(24, 400); i++ {
+		n := 3 + g.Intn(4)
+		ps := c07RandPeers(g, n)
+		rsid := c07RandSid(g)
+		o := c07Order(c07PeerList(joinOr(ps, ",")), c07Sid(rsid))
+		self := o[1+g.Intn(n-1)]
+		claimant := "-"
+		if g.Intn(4) == 0 { // a listed peer; it is followed only if it ranks above this relayer
+			for _, p := range o[1:] {
+				if p != self {
+					claimant = c07Tok(p)
+					break
+				}
+			}
+		}
+		evs := []string{}
+		for j, m := 0, 1+g.Intn(7); j < m; j++ {
+			from := c07Tok(o[g.Intn(n)])
+			switch g.Intn(8) {
+			case 0:
+				evs = append(evs, "i"+from)
+			case 1:
+				evs = append(evs, "s"+from+":"+itoa(g.Intn(5)))
+			case 2, 3, 4:
+				evs = append(evs, "f"+from)
+			default:
+				evs = append(evs, "r"+from)
+			}
+		}
+		g.Emit("retry2", c07Tok(self), itoa(1+g.Intn(n-2)), rsid, joinOr(ps, ","), claimant, joinOr(evs, ";"))
 	}
 }
 
